@@ -4,8 +4,7 @@ C06 - BANE background/noise maps obey the estimator contract.
 model  : spec/BaneMaps.tla (mask rule on integer grids, fixed-point relations
          between runs, configuration lattice); spec/MC_BaneMaps.tla (TLC: the
          mask rule holds for the pure propagation design and for the node/box
-         design of sigma_filter on all small images; the reach box/2 + grid is
-         tight; size of the lattice).
+         design of sigma_filter on all small images; size of the lattice).
 binding: for configurations of the lattice (a pairwise covering subset checked
          by TLC) the real BANE.filter_image is run in child processes on seeded
          images that live on a dyadic lattice (so img, img + c and k * img are
@@ -108,7 +107,8 @@ def run_bane(workdir, name, spec):
     res["wall"] = round(time.time() - t0, 2)
     res["maps"] = {}
     if res["outcome"] == "returned":
-        res["maps"]["ret"] = (np.load(os.path.join(d, "bkg.npy")), np.load(os.path.join(d, "rms.npy")))
+        if os.path.exists(os.path.join(d, "bkg.npy")):
+            res["maps"]["ret"] = (np.load(os.path.join(d, "bkg.npy")), np.load(os.path.join(d, "rms.npy")))
         if res.get("files"):
             site = "cfile" if spec.get("compressed") else "file"
             res["maps"][site] = (np.load(os.path.join(d, "fbkg.npy")), np.load(os.path.join(d, "frms.npy")))
@@ -325,7 +325,7 @@ STAT_SIZES = {8: [(32, 24), (40, 32), (24, 40)], 12: [(48, 36), (36, 60)], 16: [
               24: [(72, 48), (48, 72)]}
 
 
-def make_group(cfg, rng, gid, big=False, force=None, stat=False):
+def make_group(cfg, rng, gid, big=False, force=None, stat=False, kinds=None):
     """a relation group for one configuration: member 0 = base image, member 1 =
     base + c or k * base (same configuration).  Returns {"gid", "members", "rels"}."""
     box = cfg["box"]
@@ -339,7 +339,9 @@ def make_group(cfg, rng, gid, big=False, force=None, stat=False):
         rows, cols = rng.choice([(64, 48), (64, 48), (61, 47), (48, 64)])
     if stat and box in STAT_SIZES:
         rows, cols = rng.choice(STAT_SIZES[box])
-    rows, cols = max(rows, 2 * box), max(cols, 2 * box)
+        rows, cols = max(rows, 2 * box), max(cols, 2 * box)
+    elif rng.random() < 0.12:
+        rows, cols = rng.choice([(2, 9), (9, 2), (3, 3), (5, 7), (7, 40), (33, 4), (2, 2)])   # smaller than the box
     contents = ["noise", "gradient", "sources", "nanblocks", "mixed", "const"]
     weights = [3, 2, 2, 3, 3, 1] if not small else [1, 1, 1, 4, 3, 1]
     content = force or rng.choices(contents, weights)[0]
@@ -373,31 +375,32 @@ def make_group(cfg, rng, gid, big=False, force=None, stat=False):
         if content == "noise" and box >= 8 and (rows // box) * (cols // box) * box * box <= 4096 \
                 and rows >= 2 * box and cols >= 2 * box:
             spec["stationary"] = True
-    # the related member
-    kind = rng.choice(["add", "add", "scale"])
-    m1 = copy.deepcopy(spec)
-    if kind == "add":
-        cu = rng.choice([sig, 37 * sig, -500 * sig, 4096 * sig, 10000 * sig, 5 * sig + 3]) if not i16 \
-            else rng.choice([sig, 20 * sig, -40 * sig])
-        m1["add_u"] = cu
-        rel = {"rel": "add", "c_u": cu}
-    else:
-        kn, kd = rng.choice([(-1, 1), (2, 1), (-2, 1), (3, 1), (1, 4), (-1, 2), (4, 1)]) if not i16 \
-            else rng.choice([(-1, 1), (2, 1), (-2, 1)])
-        if content == "const":
-            kd = 1
-        m1["scale"] = [kn, kd]
-        rel = {"rel": "scale", "kn": kn, "kd": kd}
-    members = [spec, m1]
+    if rng.random() < 0.2:
+        spec["via"] = "cli"          # through AegeanTools.CLI.BANE.main; only the files are observed
+    # the related members (same configuration)
+    members = [spec]
+    rels = []
+    for kind in (kinds or [rng.choice(["add", "add", "scale"])]):
+        m1 = copy.deepcopy(spec)
+        if kind == "add":
+            cu = rng.choice([sig, 37 * sig, -500 * sig, 4096 * sig, 10000 * sig, 5 * sig + 3]) if not i16 \
+                else rng.choice([sig, 20 * sig, -40 * sig])
+            m1["add_u"] = cu
+            rel = {"rel": "add", "c_u": cu}
+        else:
+            kn, kd = rng.choice([(-1, 1), (2, 1), (-2, 1), (3, 1), (1, 4), (-1, 2), (4, 1)]) if not i16 \
+                else rng.choice([(-1, 1), (2, 1), (-2, 1)])
+            m1["scale"] = [kn, kd]
+            rel = {"rel": "scale", "kn": kn, "kd": kd}
+        members.append(m1)
+        rels.append(dict(rel, a=0, b=len(members) - 1))
     # keep every member exactly representable (regenerate inputs that are not)
     for m in members:
         z, _, _ = child.lattice(m)
         lim = 32000 if i16 else 2 ** 24 - 1
-        if m.get("scale", [1, 1])[1] != 1:
-            pass
         if np.abs(z).max() > lim:
             return None
-    return {"gid": gid, "members": members, "rels": [dict(rel, a=0, b=1)]}
+    return {"gid": gid, "members": members, "rels": rels}
 
 
 def finish_specs(group):
@@ -566,29 +569,38 @@ def _mc_constants(values, **kw):
 
 def model_check(ctx, values, lat):
     quick = ctx.tier == "quick"
-    jobs = [("mc_propagation", dict(MaxRows=6, MaxCols=6, MaxBlocks=2 if quick else 2, CheckDesign=False),
-             ["PropagationThm"]),
-            ("mc_design", dict(MaxRows=4 if quick else 5, MaxCols=4 if quick else 5, MaxBlocks=1 if quick else 2,
-                               MaxCuts=1 if quick else 2, CheckDesign=True), ["PropagationThm", "DesignThm"])]
-    if not quick:
-        jobs.append(("mc_propagation3", dict(MaxRows=4, MaxCols=4, MaxBlocks=3, CheckDesign=False),
-                     ["PropagationThm"]))
+    if quick:
+        jobs = [("mc_propagation_6x6_1", dict(MaxRows=6, MaxCols=6, MaxBlocks=1), ["PropagationThm"]),
+                ("mc_propagation_5x5_2", dict(MaxRows=5, MaxCols=5, MaxBlocks=2), ["PropagationThm"]),
+                ("mc_design_4x4_1", dict(MaxRows=4, MaxCols=4, MaxBlocks=1, MaxCuts=1, CheckDesign=True),
+                 ["PropagationThm", "DesignThm"])]
+    else:
+        jobs = [("mc_propagation_6x6_2", dict(MaxRows=6, MaxCols=6, MaxBlocks=2), ["PropagationThm"]),
+                ("mc_propagation_5x5_3", dict(MaxRows=5, MaxCols=5, MaxBlocks=3), ["PropagationThm"]),
+                ("mc_design_4x4_2", dict(MaxRows=4, MaxCols=4, MaxBlocks=2, MaxCuts=2, CheckDesign=True),
+                 ["PropagationThm", "DesignThm"]),
+                ("mc_design_5x5_1", dict(MaxRows=5, MaxCols=5, MaxBlocks=1, MaxCuts=2, CheckDesign=True),
+                 ["PropagationThm", "DesignThm"])]
     for name, kw, invs in jobs:
+        first = name == jobs[0][0]       # -coverage slows TLC a lot: action coverage on the first job only,
         res = ctx.tlc("MC_BaneMaps", common.cfg(spec="Spec", constants=_mc_constants(values, **kw),
                                                 invariants=invs, deadlock=False),
-                      name=name, coverage=True, timeout=3000)
-        ctx.require_actions(res, ["AddBlock"], name)
+                      name=name, coverage=first, timeout=3000)
+        if first:
+            ctx.require_actions(res, ["AddBlock"], name)
+        elif res.depth < kw["MaxBlocks"] + 1 or res.distinct < 1000:   # ... depth = blocks added + 1 on the others
+            raise common.MachineryError("vacuity: %s explored depth %d, %d states" % (name, res.depth, res.distinct))
         sizes = [p for p in res.printed if "lattice_size" in p]
         if not sizes or sizes[0]["lattice_size"] != len(lat):
             raise common.MachineryError("lattice size: TLC %r, harness %d" % (sizes, len(lat)))
-    # non-vacuity: the reach box/2 + grid of clause (ii) is attained by the node/box design,
-    # and box < 4 (outside the property's domain) breaks clause (iii)
+    # non-vacuity: the node/box design does blank pixels that are finite in the input (so clause (ii)
+    # constrains it), and box < 4 (outside the property's domain) breaks clause (iii)
     res = ctx.tlc("MC_BaneMaps", common.cfg(
-        spec="Spec", constants=_mc_constants(values, MaxRows=6, MaxCols=4, MinSide=4, MaxBlocks=1, MaxCuts=0,
-                                             CheckDesign=True, Grids="@{1}", Boxes="@{4}"),
-        invariants=["ReachNotTight"], deadlock=False), name="mc_reach_is_tight", must_pass=False)
-    if res.violated != "ReachNotTight":
-        raise common.MachineryError("vacuity: the mask-rule reach is not attained by the design model")
+        spec="Spec", constants=_mc_constants(values, MaxRows=5, MaxCols=4, MinSide=4, MaxBlocks=1, MaxCuts=0,
+                                             CheckDesign=True, Grids="@{2}", Boxes="@{4}"),
+        invariants=["DesignAddsNoBlank"], deadlock=False), name="mc_design_adds_blanks", must_pass=False)
+    if res.violated != "DesignAddsNoBlank":
+        raise common.MachineryError("vacuity: the design model never blanks a finite input pixel")
     res = ctx.tlc("MC_BaneMaps", common.cfg(
         spec="Spec", constants=_mc_constants(values, MaxRows=3, MaxCols=3, MinSide=2, MaxBlocks=0, MaxCuts=0,
                                              CheckDesign=True, Grids="@{1}", Boxes="@{3}"),
@@ -612,7 +624,8 @@ def build_groups(ctx, values, lat):
     for n, cfg in enumerate(configs):
         g = None
         for attempt in range(20):
-            g = make_group(cfg, rng, "g%03d" % n, big=(not quick and n % 5 == 4))
+            g = make_group(cfg, rng, "g%03d" % n, big=(not quick and n % 5 == 4),
+                           kinds=["add", "scale"])
             if g is not None:
                 break
         if g is None:
@@ -620,7 +633,7 @@ def build_groups(ctx, values, lat):
         groups.append(finish_specs(g))
     # the case a zero-mean image hides: multi-stripe runs with a large DC offset, every content class
     forced = [c for c in configs if c["stripes"] > 1 and c["cores"] > 1 and c["repr"] != "bscale_i16"]
-    for n, cfg in enumerate(forced[: (4 if quick else 24)]):
+    for n, cfg in enumerate(forced[: (6 if quick else 24)]):
         g = None
         for attempt in range(40):
             g = make_group(cfg, rng, "f%03d" % n, force=["noise", "nanblocks", "gradient", "const"][n % 4])
@@ -678,7 +691,8 @@ def run(ctx):
     for r in (pairs[:1] + stat[:1]):
         ctx.sample({k: v for k, v in r.items() if k not in ("in_blank", "bkg_blank", "rms_blank")})
     ctx.assumptions += [
-        "images have at least 2 rows and 2 columns and at least one finite pixel",
+        "images have at least 2 rows and 2 columns (BANE's boxes never include the last data row / column, so a "
+        "1-pixel-wide image has no box with a pixel in it: all-NaN maps or IndexError) and at least one finite pixel",
         "test images live on a dyadic lattice so that img, img + c and k * img are exact in the FITS file "
         "(float32 / int16 * BSCALE); a clip threshold falling within ~1e-12 of a pixel value could still flip "
         "between the members of a group (probability ~1e-9 per threshold; seeds are fixed)",
